@@ -319,6 +319,7 @@ class Engine:
     self.calls_resolved = 0
     self.calls_unresolved = []
     self._oid = 0
+    self._btests = {}
     self.trace = []
 
   # ------------------------------------------------------------------ join
@@ -364,8 +365,15 @@ class Engine:
     allkeys = set()
     for s in states:
       allkeys |= set(s.vars)
+    # a boolean temporary keeps its meaning only if every path defines it
+    # by the same test
+    allkeys = set(k for k in allkeys if not (isinstance(k, tuple) and
+                                              k[0] == '@btest') or k in keys)
     for k in keys:
       v = states[0].vars[k]
+      if v is True:
+        out.vars[k] = True
+        continue
       for s in states[1:]:
         v = self.join_v(v, s.vars[k])
       out.vars[k] = v
@@ -903,6 +911,17 @@ class Engine:
       for k in [k for k in st.vars if isinstance(k, tuple) and
                 k[0] == '@attr' and k[1] == target.id]:
         del st.vars[k]
+      for k in [k for k in st.vars if isinstance(k, tuple) and
+                k[0] == '@btest' and (k[1] == target.id or
+                                      target.id in self._btests[k[2]][1])]:
+        del st.vars[k]
+      if isinstance(stmt, ast.Assign) and stmt.targets == [target] and \
+              self._is_test_expr(stmt.value):
+        deps = frozenset(x.id for x in ast.walk(stmt.value)
+                         if isinstance(x, ast.Name))
+        if target.id not in deps:
+          self._btests[id(stmt.value)] = (stmt.value, deps)
+          st.vars[('@btest', target.id, id(stmt.value))] = True
       self.dom.on_assign_name(target.id, v, stmt, st)
     elif isinstance(target, (ast.Tuple, ast.List)):
       n = len(target.elts)
@@ -1843,7 +1862,26 @@ class Engine:
           st.vars[k] = self.dom.refined(v)
     return ok
 
+  @staticmethod
+  def _is_test_expr(e):
+    if isinstance(e, ast.Compare):
+      return True
+    if isinstance(e, ast.UnaryOp) and isinstance(e.op, ast.Not):
+      return True
+    if isinstance(e, ast.BoolOp):
+      return all(Engine._is_test_expr(x) or isinstance(x, ast.Name)
+                 for x in e.values)
+    if isinstance(e, ast.Call) and isinstance(e.func, ast.Name) and \
+            e.func.id == 'isinstance':
+      return True
+    return False
+
   def _refine(self, test, taken, st, func):
+    if isinstance(test, ast.Name):
+      # a boolean temporary stands for the test that defined it
+      for k in st.vars:
+        if isinstance(k, tuple) and k[0] == '@btest' and k[1] == test.id:
+          return self._refine(self._btests[k[2]][0], taken, st, func)
     if isinstance(test, ast.UnaryOp) and isinstance(test.op, ast.Not):
       return self._refine(test.operand, not taken, st, func)
     if isinstance(test, ast.BoolOp):
